@@ -117,6 +117,12 @@ CHECKS = [
         text='Sequences of <=4 (thorough <=6) feature requests on corpus PK models: each request returns a model or a documented refusal (anything else is not-total); the detector of the requested category reports exactly the request, other category groups are unchanged except documented couplings, the dose still reaches central, no undefined symbols; f(f(m)) is function-equivalent to f(m); documented inverse pairs restore the function up to initial estimates; update_source succeeds.',
         note='Reversibility only asserted for histories starting at basic models without extensions; couplings inside the absorption group are classified (documented/undocumented), not flagged.',
     ),
+    dict(
+        id='C18', level='exploration',
+        technique='property-based testing: grammar-generated MFL strings vs an independent regex parser + explicit set expansion; documented stepwise rules re-implemented; exhaustive enumeration of partitions/subsets for n<=6',
+        text='MFL strings (all feature kinds, lists, ranges, wildcards, LET references) are parsed by pharmpy and by a pharmpy-free reference; print/parse round trip, +, -, ==, contain_subset and least_number_of_transformations agree with set operations on explicit expansions; convert_to_funcs / all_combinations / exhaustive enumerate each combination once with unique names; exhaustive_stepwise / reduced_stepwise paths lie between the documented rule set and the documented+commented code rules, each path once, steps independent of path emptiness; partitions (Bell numbers), subsets and the iivsearch brute-force builders are enumerated completely for n<=6 (exhaustive sub-checks).',
+        note='Only documented laws are asserted; covariate wildcards compared symbolically (no model-based expansion).',
+    ),
 ]
 
 ALL = ['C%02d' % i for i in range(1, 21)]
